@@ -317,8 +317,18 @@ impl TcpSession {
     }
 
     fn back_hup(&mut self) -> SessionResult {
+        let back_event = self.back_readiness().map(|r| r.event);
         match &mut self.state {
             TcpStateMachine::Pipe(pipe) => pipe.backend_hup(&mut self.metrics),
+            // The backend hung up behind bytes that are still in its socket while
+            // the PROXY header is being handled: the pipe will relay them and
+            // meet the end of the stream.
+            _ if back_event.is_some_and(|e| e.is_readable() && !e.is_error()) => {
+                if let Some(r) = self.back_readiness() {
+                    r.event.remove(Ready::HUP);
+                }
+                SessionResult::Continue
+            }
             _ => {
                 self.log_request();
                 SessionResult::Close
